@@ -985,7 +985,7 @@ def run(chk, replay=None):
                                                {'input': {'lines': c['lines'], 'rewrite': rw, 'pts': c['pts'], 's0': c['s0'],
                                                           'features': c['features'], 'flavour': c['flavour']},
                                                 'lcapy': {'replace_switches': rr.get('text'), 'replace_switches_before': rr['before_canon']},
-                                                'spec': 'C05 replace_switches_noevent (full statement; the repaired rule satisfies it: replace_switches_noevent_repaired)'},
+                                                'spec': 'C05.replace_switches_noevent'},
                                                'replace_switches_before(t) differs from replace_switches(t) at an instant t with no switching event')
                 if op == 'ac_model' and 'ac_at_w0' in rr:
                     chk.coverage['correspondence']['compared'] += 1
